@@ -325,6 +325,34 @@ def _norm(v):
   return ('object', type(v).__name__)
 
 
+class _TooLong(BaseException):
+  pass
+
+
+def terminates(src, limit=20000):
+  """Runs `src` under a line-event budget (guards the harness against generated loops)."""
+  import sys
+  n = [0]
+
+  def tracer(frame, event, arg):
+    n[0] += 1
+    if n[0] > limit:
+      raise _TooLong()
+    return tracer
+  old = sys.gettrace()
+  try:
+    sys.settrace(tracer)
+    with contextlib.redirect_stdout(io.StringIO()):
+      exec(compile(src, '<budget>', 'exec'), {'S': Sentinel(), 'hitcount_': 0})  # pylint: disable=exec-used
+  except _TooLong:
+    return False
+  except BaseException:  # pylint: disable=broad-except
+    return True
+  finally:
+    sys.settrace(old)
+  return True
+
+
 def reference(src, extra_globals=None):
   """Plain exec of the same text: dict(outcome, stdout, vars, log, lineno, result)."""
   s = Sentinel()
@@ -764,6 +792,7 @@ class _Gen:
   def __init__(self, r):
     self.r = r
     self.vars = []
+    self.counters = set()       # loop counters: readable, never reassigned by generated code
     self.funcs = []
     self.n = 0
 
@@ -813,8 +842,9 @@ class _Gen:
       return [line]
     if x < 0.36:
       return [f'print({self.expr()}, {self.expr()})']
-    if x < 0.42 and self.vars:
-      return [f'{r.choice(self.vars)} {r.choice(["+=", "-=", "*="])} {self.expr()}']
+    if x < 0.42 and [v for v in self.vars if v not in self.counters]:
+      v = r.choice([v for v in self.vars if v not in self.counters])
+      return [f'{v} {r.choice(["+=", "-=", "*="])} {self.expr()}']
     if x < 0.46:
       v = self.fresh()
       self.vars.append(v)
@@ -837,6 +867,7 @@ class _Gen:
     if x < 0.69:
       c = self.fresh('c')
       self.vars.append(c)
+      self.counters.add(c)
       return [f'{c} = 0', f'while {c} < {r.randrange(1, 4)}:'] + self.ind(self.block(d + 1) + [f'{c} += 1'])
     if x < 0.76:
       f = self.fresh('f')
@@ -889,7 +920,7 @@ def drv_random_programs(tier, seed):
   chk = Checker(rec)
   for k in range(n):
     src = _Gen(r).program()
-    if not valid_python(src):
+    if not valid_python(src) or not terminates(src):
       continue
     hard, soft = classify(src)
     need = perm_of(hard | soft)
